@@ -344,11 +344,12 @@ func loadFindings(id string) []string {
 	return out
 }
 
-// Quiet silences library logging.
+// Quiet sends library logging nowhere. The log statements still run as they do in production (every level is on, the
+// events are rendered and then discarded): rendering an error or a value for a log line is part of what the code does.
 func Quiet() {
 	log.SetOutput(io.Discard)
-	zerolog.SetGlobalLevel(zerolog.Disabled)
-	zlog.Logger = zerolog.New(io.Discard)
+	zerolog.SetGlobalLevel(zerolog.TraceLevel)
+	zlog.Logger = zerolog.New(io.Discard).With().Timestamp().Logger()
 }
 
 // Main is the entry point of every driver.
